@@ -39,7 +39,7 @@ ALL_KINDS = SIMPLE_KINDS + COMPOSITE_KINDS
 
 # analysis function -> argument names (besides candles/index)
 ANALYSIS = {
-    "positive": [], "negative": [],
+    "positive": [], "negative": [], "above": ["a", "b"], "below": ["a", "b"],
     "value_range": ["ind", "length"], "rising": ["ind", "length"], "falling": ["ind", "length"],
     "mean_rising": ["ind", "length"], "mean_falling": ["ind", "length"],
     "highest": ["ind", "length"], "lowest": ["ind", "length"],
@@ -165,7 +165,7 @@ def as_config_dict(spec, with_manager=True):
     """the dict form accepted by Hexital(indicators=[{...}])"""
     kw = indicator_kwargs(spec, with_manager)
     if spec["kind"] == "AMORPH":
-        return {"analysis": spec["fn"], **analysis_kwargs(spec), **kw}
+        return {"analysis": spec["fn"], "args": analysis_kwargs(spec), **kw}
     from hexital.indicators import INDICATOR_MAP
     from hexital import indicators
 
@@ -210,7 +210,7 @@ def gen_spec(rng, kinds=None, allow_mgr=True, max_period=25, inputs=None):
 
 
 def gen_amorph_spec(rng, fns=None, inds=None):
-    fn = rng.choice(fns or list(ANALYSIS))
+    fn = rng.choice(fns or [f for f in ANALYSIS if f not in ("above", "below")])
     spec = {"kind": "AMORPH", "fn": fn, "round": 4}
     args = ANALYSIS[fn]
     inds = inds or ["close", "open", "high", "low", "volume"]
